@@ -10,7 +10,7 @@ TECHNIQUE = "static analysis over type-checked MIR: single-snapshot-load dominan
 LEVEL_TEXT = """Static, all-paths decision of: (A1) each of Log::log/enabled/flush has exactly one ArcSwap::load site, outside any loop, and every access to the snapshot's fields (root, appender table, error handler) goes through that one guard; (A2) Logger holds one Arc<ArcSwap<snapshot>>, the snapshot owns tree and appender table, has no interior mutability of its own, its aggregate is built only in the constructor and the tree's mutator is called only from the constructor and itself; (A3) Handle::set_config builds a complete snapshot from the new config before the single store, which lies on every path to return; (A4) the delivery cone of Log::log (cut at dyn Append/Filter) acquires no lock, so a re-entrant set_config cannot self-deadlock; (A5) reloader control flow: in run the Err arm returns to the loop head and only Ok(None) leaves; in run_once set_config is dominated by the Ok edge of Format::parse and control-dependent on the text having changed, the unchanged-mtime/unchanged-text edges return Ok(Some(rate)) without reaching the handle, and the new rate is the parsed config's refresh_rate(). arc-swap's own guarantees, real interleavings and file-system timestamps are not decided."""
 LEVEL_NOTE = "Trusted: rustc MIR/callee resolution; arc-swap (atomic swap, guard keeps the old snapshot alive, store does not wait on readers); std fs timestamps."
 EXPLANATION = """Decided: A1 one snapshot per call, A2 immutable self-contained snapshot, A3 build-then-store, A4 no lock across delivery, A5 reloader loop and edges. Undecided: arc-swap internals, actual interleavings, file-system timestamp behaviour."""
-DECIDED = ["A1 single load dominating all snapshot accesses", "A2 snapshot immutability/ownership", "A3 complete build before single store", "A4 lock-free delivery", "A5 reloader control flow"]
+DECIDED = ["A1 single load dominating all snapshot accesses", "A2 snapshot immutability/ownership", "A3 complete build before single store", "A4 lock-free delivery", "A5 reloader control flow", "A6 the reloader is started with the text that was loaded and a modification time read right beside it"]
 UNDECIDED = ["arc-swap internals", "real interleavings", "file-system timestamps"]
 TRUSTED = ["rustc nightly MIR + Instance::try_resolve", "arc-swap", "std::fs metadata"]
 
@@ -145,6 +145,32 @@ def run_cfg(ctx, p, cfg):
     feats = set(p.meta.get("features", []))
     if "config_parsing" not in feats:
         return
+    with ctx.rule("A6", "the reloader starts from exactly what was loaded", cfg) as r:
+        f = p.fn("config::file::init_file")
+        rd = f.call1("config::file::read_config")
+        st = f.call1("config::file::ConfigReloader::start")
+        md = [c for c in f.calls() if c.callee in ("std::fs::metadata", "std::fs::Metadata::modified", "std::fs::File::metadata")]
+        md += [c for g in p.closures_of(f.path) for c in g.calls() if c.callee == "std::fs::Metadata::modified"]
+        mdf = [c for c in f.calls("std::fs::metadata")]
+        r.require(len(mdf) == 1, "one-mtime-read", fn=f, detail="fs::metadata sites in init_file: %d" % len(mdf))
+        later = [c for c in f.calls() if c.callee in p.fns and c.callee not in ("config::file::read_config", "config::file::Format::from_path") and c.block != st.block]
+        if mdf:
+            m = mdf[0]
+            # the text and its timestamp are taken together: nothing that interprets or installs the configuration runs in between,
+            # otherwise a save during that window pairs the old text with the new timestamp and is never picked up
+            between = [c for c in later if f.dominates(c.block, m.block) and f.dominates(rd.block, c.block)]
+            base = {sb for sb, si, al in f.conditions(rd.block)}
+            extra = [si for sb, si, al in f.conditions(m.block) if sb not in base and not (
+                strip(si.discr)[0] == "discr" and any(x[0] == "call" and len(x) > 3 and x[3] == rd.block for x in walk(si.discr)))]
+            after_rd = f.dominates(rd.block, m.block) and not between and not extra
+            before_rd = f.dominates(m.block, rd.block) and not [c for c in later if f.dominates(m.block, c.block) and f.dominates(c.block, rd.block)]
+            r.require(after_rd or before_rd, "mtime-read-next-to-the-text", fn=f, site=m.at,
+                      detail="the modification time is read right beside read_config (no parse/deserialize/install call in between, not conditional)",
+                      fail_detail="the modification time handed to the reloader is read after %s: a save in that window leaves the reloader with the old text and the new timestamp, so the change is never applied" % [c.callee for c in between][:3])
+        src = st.arg(3) if len(st.args) > 3 else None
+        r.require(src is not None and any(x[0] == "call" and len(x) > 3 and x[3] == rd.block for x in walk(src)), "reloader-gets-the-loaded-text", fn=f, site=st.at,
+                  detail="ConfigReloader::start receives the text read by read_config")
+
     with ctx.rule("A5", "reloader control flow", cfg) as r:
         f = p.fn(RUN)
         ro_ = f.call1(RUN_ONCE, "run_once")
